@@ -1218,6 +1218,25 @@ fn c10(r: &mut Rng, thorough: bool, w: W) -> std::io::Result<()> {
 
 fn c09(r: &mut Rng, thorough: bool, w: W) -> std::io::Result<()> {
     let n = if thorough { 600_000 } else { 12_000 };
+    // the level comparison itself: every message-info byte's type x every threshold level
+    {
+        let mut levels = vec![
+            LogLevel::Fatal, LogLevel::Error, LogLevel::Warn, LogLevel::Info, LogLevel::Debug, LogLevel::Verbose,
+        ];
+        for k in [0u8, 7, 8, 9, 14, 15, 16, 255] {
+            levels.push(LogLevel::Invalid(k));
+        }
+        let mut types: Vec<MessageType> = levels.iter().map(|l| MessageType::Log(*l)).collect();
+        types.push(MessageType::ApplicationTrace(ApplicationTraceType::State));
+        types.push(MessageType::NetworkTrace(NetworkTraceType::Can));
+        types.push(MessageType::Control(ControlType::Response));
+        types.push(MessageType::Unknown((5, 3)));
+        for mt in &types {
+            for l in &levels {
+                writeln!(w, "SKIPLVL {} {}", p_message_type(mt), p_log_level(l))?;
+            }
+        }
+    }
     let alphabet = ["", "A", "B", "AB", "ECU", "ECU1", "é", "x"];
     for i in 0..n {
         let storage = r.flip();
